@@ -517,7 +517,12 @@ Definition start_self (rec : rec_t) (e : env) (t : name) (f : fid) (before : opt
     && (r_ovr sf || match r_stamp sf with Some s => detect_override s ns | None => true end) in
   let '(sf, w, evs0) :=
     if is_ovr_now then
-      let sf' := if r_ovr sf then sf else set_override runid w sf in
+      let sf' := if r_ovr sf
+                 then (* edited by hand again: one recorded change, the override stays *)
+                      if ostamp_eqb (r_stamp sf) ns then sf
+                      else upd_row sf (r_gen sf) (r_ovr sf) (r_checked sf) (Some runid) (r_failed sf)
+                                   (Some ns) (r_csum sf)
+                 else set_override runid w sf in
       (sf', set_db w (put_row (dbs w) f sf'), [EvWarnOverride t])
     else (sf, w, []) in
   (* (2) an existing file that we did not generate (or that was overridden) is left alone *)
